@@ -6,9 +6,11 @@ package main
 //
 // For every TLC-enumerated case the REAL daemon service answers AllocIP (and GetIPInfo) over the
 // real eni.Manager and the real resource back-ends (eni.Remote, eni.CRDV2 against a controller-runtime
-// fake API client holding the PodENI / Node custom resources of the case; eni.LocalIPResource for the
-// node-local pool), the reply crosses a protobuf round trip like on the unix socket, and the REAL
-// plugin code (getCmdArgs, parseSetupConf, parseTearDownConf, getDatePath) consumes it.
+// fake API client holding the PodENI / Node custom resources of the case; for the node-local pool either a
+// harness-built eni.LocalIPResource (kind "local") or the REAL pool, eni.Local run by the Manager on a fake
+// cloud factory, after a short history of earlier pods and pool shrinking (kind "localpool")), the reply
+// crosses a protobuf round trip like on the unix socket, and the REAL plugin code (getCmdArgs,
+// parseSetupConf, parseTearDownConf, getDatePath) consumes it.
 // The harness only builds inputs and projects outputs to plain values; it takes no decision.
 
 import (
@@ -17,9 +19,12 @@ import (
 	"fmt"
 	"net"
 	"net/netip"
+	"os"
+	"os/exec"
 	"strings"
 	"sync"
 	"testing"
+	"time"
 
 	"github.com/containernetworking/cni/pkg/skel"
 	"github.com/vishvananda/netlink"
@@ -105,17 +110,20 @@ func c12IPNet(base any, plen any) *net.IPNet {
 }
 
 type c12K8s struct {
-	k8s.Kubernetes // every other method is unused by AllocIP / GetIPInfo
+	k8s.Kubernetes // every other method is unused by AllocIP / ReleaseIP / GetIPInfo
 	pod            *daemon.PodInfo
+	earlier        []*daemon.PodInfo // pods of the history before the judged ADD (kind "localpool")
 	svc            *terwayTypes.IPNetSet
 }
 
 func (k *c12K8s) GetPod(ctx context.Context, namespace, name string, cache bool) (*daemon.PodInfo, error) {
-	if namespace != k.pod.Namespace || name != k.pod.Name {
-		return nil, fmt.Errorf("pod %s/%s not found", namespace, name)
+	for _, q := range append([]*daemon.PodInfo{k.pod}, k.earlier...) {
+		if namespace == q.Namespace && name == q.Name {
+			p := *q
+			return &p, nil
+		}
 	}
-	p := *k.pod
-	return &p, nil
+	return nil, fmt.Errorf("pod %s/%s not found", namespace, name)
 }
 func (k *c12K8s) GetServiceCIDR() *terwayTypes.IPNetSet                      { return k.svc }
 func (k *c12K8s) PatchPodIPInfo(info *daemon.PodInfo, ips string) error      { return nil }
@@ -147,6 +155,340 @@ func (l *c12Local) Priority() int   { return 0 }
 func (l *c12Local) Dispose(int) int { return 0 }
 func (l *c12Local) Run(context.Context, []daemon.PodResources, *sync.WaitGroup) error {
 	return nil
+}
+
+// ---- the node-local pool on a fake cloud (kind "localpool") -----------------------------------
+
+// c12Wait bounds every wait of a history step. Running into it is a machinery error (the test fails), never a verdict.
+const c12Wait = 90 * time.Second
+
+var c12Machinery struct {
+	sync.Mutex
+	errs []string
+}
+
+func c12MachineryError(format string, a ...any) {
+	c12Machinery.Lock()
+	c12Machinery.errs = append(c12Machinery.errs, fmt.Sprintf(format, a...))
+	c12Machinery.Unlock()
+}
+
+// c12Iface is what the cloud and its metadata service answer for one interface: MAC, subnet and gateway per family
+// and the addresses the cloud hands out, in order (the first IPv4 address is the primary one).
+type c12Iface struct {
+	mac                    string
+	cidr4, gw4, cidr6, gw6 string
+	v4, v6                 []netip.Addr
+}
+
+type c12CloudENI struct {
+	plan   *c12Iface
+	id     string
+	n4, n6 int          // addresses of the plan handed out so far
+	v4, v6 []netip.Addr // currently assigned
+}
+
+// c12Cloud is a fake cloud behind factory.Factory. Like pkg/factory/aliyun it fills the IPv6 subnet and gateway of an
+// interface only when the interface is created with IPv6 addresses, and every interface has a primary IPv4 address.
+type c12Cloud struct {
+	mu    sync.Mutex
+	plans []*c12Iface // one per CreateNetworkInterface call, in call order
+	enis  map[string]*c12CloudENI
+	seq   int
+	calls []string
+}
+
+func (c *c12Cloud) CreateNetworkInterface(ipv4, ipv6 int, eniType string) (*daemon.ENI, []netip.Addr, []netip.Addr, error) {
+	c.mu.Lock()
+	defer c.mu.Unlock()
+	c.calls = append(c.calls, fmt.Sprintf("create(%d,%d)", ipv4, ipv6))
+	if ipv4 < 1 {
+		ipv4 = 1
+	}
+	if len(c.plans) == 0 {
+		return nil, nil, nil, fmt.Errorf("verif: the cloud has no further interface")
+	}
+	p := c.plans[0]
+	if ipv4 > len(p.v4) || ipv6 > len(p.v6) {
+		return nil, nil, nil, fmt.Errorf("verif: not that many addresses in the vSwitch")
+	}
+	c.plans = c.plans[1:]
+	c.seq++
+	e := &c12CloudENI{plan: p, id: fmt.Sprintf("eni-%d", c.seq), n4: ipv4, n6: ipv6}
+	e.v4 = append(e.v4, p.v4[:ipv4]...)
+	e.v6 = append(e.v6, p.v6[:ipv6]...)
+	c.enis[e.id] = e
+	r := &daemon.ENI{ID: e.id, MAC: p.mac, VSwitchID: "vsw-" + e.id}
+	r.PrimaryIP.SetIP(p.v4[0].String())
+	r.VSwitchCIDR.SetIPNet(p.cidr4)
+	r.GatewayIP.SetIP(p.gw4)
+	if ipv6 > 0 {
+		r.VSwitchCIDR.SetIPNet(p.cidr6)
+		r.GatewayIP.SetIP(p.gw6)
+	}
+	return r, append([]netip.Addr{}, e.v4...), append([]netip.Addr{}, e.v6...), nil
+}
+
+func (c *c12Cloud) assign(id string, count int, fam int) ([]netip.Addr, error) {
+	c.mu.Lock()
+	defer c.mu.Unlock()
+	c.calls = append(c.calls, fmt.Sprintf("assign%d(%s,%d)", fam, id, count))
+	e := c.enis[id]
+	if e == nil {
+		return nil, fmt.Errorf("verif: interface %s not found", id)
+	}
+	src, n, cur := e.plan.v4, &e.n4, &e.v4
+	if fam == 6 {
+		src, n, cur = e.plan.v6, &e.n6, &e.v6
+		if e.plan.cidr6 == "" {
+			return nil, fmt.Errorf("verif: the vSwitch of %s has no IPv6 subnet", id)
+		}
+	}
+	if *n+count > len(src) {
+		return nil, fmt.Errorf("verif: not that many addresses in the vSwitch")
+	}
+	got := append([]netip.Addr{}, src[*n:*n+count]...)
+	*n += count
+	*cur = append(*cur, got...)
+	return got, nil
+}
+
+func (c *c12Cloud) AssignNIPv4(id string, count int, mac string) ([]netip.Addr, error) {
+	return c.assign(id, count, 4)
+}
+func (c *c12Cloud) AssignNIPv6(id string, count int, mac string) ([]netip.Addr, error) {
+	return c.assign(id, count, 6)
+}
+
+func (c *c12Cloud) unassign(id string, ips []netip.Addr, fam int) error {
+	c.mu.Lock()
+	defer c.mu.Unlock()
+	c.calls = append(c.calls, fmt.Sprintf("unassign%d(%s,%v)", fam, id, ips))
+	e := c.enis[id]
+	if e == nil {
+		return fmt.Errorf("verif: interface %s not found", id)
+	}
+	cur := &e.v4
+	if fam == 6 {
+		cur = &e.v6
+	}
+	keep := []netip.Addr{}
+	for _, a := range *cur {
+		gone := false
+		for _, d := range ips {
+			gone = gone || d == a
+		}
+		if !gone {
+			keep = append(keep, a)
+		}
+	}
+	*cur = keep
+	return nil
+}
+
+func (c *c12Cloud) UnAssignNIPv4(id string, ips []netip.Addr, mac string) error {
+	return c.unassign(id, ips, 4)
+}
+func (c *c12Cloud) UnAssignNIPv6(id string, ips []netip.Addr, mac string) error {
+	return c.unassign(id, ips, 6)
+}
+
+func (c *c12Cloud) DeleteNetworkInterface(id string) error {
+	c.mu.Lock()
+	defer c.mu.Unlock()
+	c.calls = append(c.calls, fmt.Sprintf("delete(%s)", id))
+	delete(c.enis, id)
+	return nil
+}
+
+func (c *c12Cloud) LoadNetworkInterface(mac string) ([]netip.Addr, []netip.Addr, error) {
+	c.mu.Lock()
+	defer c.mu.Unlock()
+	for _, e := range c.enis {
+		if e.plan.mac == mac {
+			return append([]netip.Addr{}, e.v4...), append([]netip.Addr{}, e.v6...), nil
+		}
+	}
+	return nil, nil, fmt.Errorf("verif: no interface with mac %s", mac)
+}
+
+func (c *c12Cloud) GetAttachedNetworkInterface(preferTrunkID string) ([]*daemon.ENI, error) {
+	return nil, nil
+}
+
+func c12Addrs(v any) []netip.Addr {
+	r := []netip.Addr{}
+	for _, x := range vt.List(v) {
+		if s := c12IP(x); s != "" {
+			r = append(r, c12Addr(s))
+		}
+	}
+	return r
+}
+
+// c12IfaceOf reads one interface of the environment (record Iface of the specification).
+func c12IfaceOf(m vt.M, mac string) *c12Iface {
+	return &c12Iface{mac: mac, cidr4: c12CIDR(m["net4"], m["plen4"]), gw4: c12IP(m["gw4"]),
+		cidr6: c12CIDR(m["net6"], m["plen6"]), gw6: c12IP(m["gw6"]), v4: c12Addrs(m["ips4"]), v6: c12Addrs(m["ips6"])}
+}
+
+// c12Pool is the real node-local pool of one case: one interface slot (eni.Local) run by the real eni.Manager.
+type c12Pool struct {
+	cloud  *c12Cloud
+	local  *eni.Local
+	mgr    *eni.Manager
+	hist   string
+	v4, v6 bool
+	ctx    context.Context
+	stop   context.CancelFunc
+	wg     sync.WaitGroup
+}
+
+func c12NewPool(in vt.M) *c12Pool {
+	a := vt.Map(vt.List(in["allocs"])[0])
+	env := vt.Map(in["env"])
+	p := &c12Pool{hist: vt.Str(in["hist"]), v4: c12IP(a["ip4"]) != "", v6: c12IP(a["ip6"]) != ""}
+	// the interface the cloud attaches in the case's subnets; its MAC is the one the plugin can resolve to a link
+	b := &c12Iface{mac: c12MAC, cidr4: c12CIDR(a["net4"], a["plen4"]), gw4: c12IP(a["gw4"]),
+		cidr6: c12CIDR(a["net6"], a["plen6"]), gw6: c12IP(a["gw6"])}
+	if !p.v4 {
+		// every interface has a primary IPv4 address, and the daemon's configuration check knows no IPv6-only stack
+		panic("harness: a localpool case without IPv4")
+	}
+	b.v4 = append([]netip.Addr{c12Addr(c12IP(a["ip4"]))}, c12Addrs(env["more4"])...)
+	if p.hist == "shared" { // the earlier pod, which stays, gets the first addresses
+		b.v4 = append(c12Addrs(env["more4"]), c12Addr(c12IP(a["ip4"])))
+	}
+	if p.v6 {
+		b.v6 = append([]netip.Addr{c12Addr(c12IP(a["ip6"]))}, c12Addrs(env["more6"])...)
+		if p.hist == "shared" {
+			b.v6 = append(c12Addrs(env["more6"]), c12Addr(c12IP(a["ip6"])))
+		}
+	}
+	p.cloud = &c12Cloud{enis: map[string]*c12CloudENI{}, plans: []*c12Iface{b}}
+	if strings.HasPrefix(p.hist, "reuse") {
+		p.cloud.plans = []*c12Iface{c12IfaceOf(vt.Map(env["a"]), "02:16:3e:00:0a:01"), b}
+	}
+	// batch size as in daemon/config.go getPoolConfig; one slot, so that the slot's history is the case's history
+	cfg := &daemon.PoolConfig{BatchSize: 10, MaxIPPerENI: 10, EnableIPv4: p.v4, EnableIPv6: p.v6}
+	p.local = eni.VerifC12NewLocalPool(p.cloud, cfg)
+	p.mgr = eni.NewManager(0, 10, 10, 0, []eni.NetworkInterface{p.local}, daemon.EniSelectionPolicyMostIPs, nil)
+	p.ctx, p.stop = context.WithCancel(context.Background())
+	if err := p.mgr.Run(p.ctx, &p.wg, nil); err != nil {
+		panic("harness: manager run: " + err.Error())
+	}
+	return p
+}
+
+// close stops the pool's workers. The case's process ends right afterwards, so their exit is not awaited (the pool's
+// shutdown wake-up, a Broadcast without the lock, can be missed by a worker that is about to wait; daemon shutdown is not
+// C12's subject).
+func (p *c12Pool) close() { p.stop() }
+
+// until polls the slot's own status report (eni.Local.Status) until cond holds.
+func (p *c12Pool) until(what string, cond func(st eni.Status, deleting int) bool) bool {
+	deadline := time.Now().Add(c12Wait)
+	for {
+		st := p.local.Status()
+		deleting := 0
+		for _, u := range st.Usage {
+			if len(u) == 3 && u[2] == "Deleting" {
+				deleting++
+			}
+		}
+		if cond(st, deleting) {
+			return true
+		}
+		if time.Now().After(deadline) {
+			c12MachineryError("hist %s: time-out waiting for %s; slot %+v; cloud calls %v", p.hist, what, st, p.cloudCalls())
+			return false
+		}
+		time.Sleep(10 * time.Millisecond)
+	}
+}
+
+func (p *c12Pool) cloudCalls() []string {
+	p.cloud.mu.Lock()
+	defer p.cloud.mu.Unlock()
+	return append([]string{}, p.cloud.calls...)
+}
+
+func c12EarlierPod(k int) *daemon.PodInfo {
+	return &daemon.PodInfo{Name: fmt.Sprintf("pod-h%d", k), Namespace: c12NS, PodUID: fmt.Sprintf("uid-pod-h%d", k),
+		PodNetworkType: daemon.PodNetworkTypeENIMultiIP}
+}
+
+// play runs the history that precedes the judged ADD through the real daemon service: ADDs and DELs of earlier pods and
+// runs of the pool balancer. It returns "" or why the history could not be played (an earlier ADD/DEL was refused).
+func (p *c12Pool) play(svc rpc.TerwayBackendServer) string {
+	add := func(k int) string {
+		ctx, cancel := context.WithTimeout(context.Background(), c12Wait)
+		defer cancel()
+		q := c12EarlierPod(k)
+		_, err := svc.AllocIP(ctx, &rpc.AllocIPRequest{Netns: c12NetNS, K8SPodName: q.Name, K8SPodNamespace: q.Namespace,
+			K8SPodInfraContainerId: "sandbox-" + q.Name, IfName: "eth0"})
+		if err != nil && ctx.Err() != nil {
+			c12MachineryError("hist %s: time-out in the ADD of %s; cloud calls %v", p.hist, q.Name, p.cloudCalls())
+		}
+		if err != nil {
+			return fmt.Sprintf("error: earlier ADD of %s: %v", q.Name, err)
+		}
+		return ""
+	}
+	del := func(k int) string {
+		q := c12EarlierPod(k)
+		_, err := svc.ReleaseIP(context.Background(), &rpc.ReleaseIPRequest{K8SPodName: q.Name, K8SPodNamespace: q.Namespace,
+			K8SPodInfraContainerId: "sandbox-" + q.Name})
+		if err != nil {
+			return fmt.Sprintf("error: earlier DEL of %s: %v", q.Name, err)
+		}
+		return ""
+	}
+	shrink := func(maxIdle int) string {
+		ctx, cancel := context.WithTimeout(p.ctx, c12Wait)
+		defer cancel()
+		eni.VerifC12Shrink(ctx, p.mgr, maxIdle)
+		return ""
+	}
+	given := func() string { // the addresses handed back are gone from the slot
+		if !p.until("the disposed addresses to be unassigned", func(st eni.Status, deleting int) bool { return deleting == 0 }) {
+			return "error: harness time-out"
+		}
+		return ""
+	}
+	empty := func() string {
+		if !p.until("the slot to become empty", func(st eni.Status, deleting int) bool {
+			return st.NetworkInterfaceID == "" && st.Status == "Init"
+		}) {
+			return "error: harness time-out"
+		}
+		return ""
+	}
+	var steps []func() string
+	one, two := func() string { return add(1) }, func() string { return add(2) }
+	del1, del2 := func() string { return del(1) }, func() string { return del(2) }
+	to := func(n int) func() string { return func() string { return shrink(n) } }
+	switch p.hist {
+	case "fresh":
+	case "cached":
+		steps = []func() string{one, del1}
+	case "shared":
+		steps = []func() string{one}
+	case "partial":
+		steps = []func() string{one, two, del2, to(0), given, del1}
+	case "reuse":
+		steps = []func() string{one, del1, to(0), empty}
+	case "reuse_partial":
+		steps = []func() string{one, two, del1, del2, to(1), given, to(0), empty}
+	default:
+		panic("harness: unknown history " + p.hist)
+	}
+	for _, f := range steps {
+		if e := f(); e != "" {
+			return e
+		}
+	}
+	return ""
 }
 
 func c12PodENI(in vt.M, trunkID string) *networkv1beta1.PodENI {
@@ -444,7 +786,8 @@ func c12DownOut(cfg *types.TeardownCfg, err error) vt.M {
 // ---- one ADD -----------------------------------------------------------------------------------
 
 func c12Add(in vt.M) vt.M {
-	out := vt.M{"err": "", "success": false, "iptype": "", "nets": []vt.M{}, "setups": []vt.M{}, "downs": []vt.M{}, "conferr": ""}
+	// cloud: the calls the real pool made to the (fake) cloud, history included; informational, not judged
+	out := vt.M{"err": "", "success": false, "iptype": "", "nets": []vt.M{}, "setups": []vt.M{}, "downs": []vt.M{}, "conferr": "", "cloud": []string{}}
 	ctx := context.Background()
 
 	podIn := vt.Map(in["pod"])
@@ -463,9 +806,31 @@ func c12Add(in vt.M) vt.M {
 	_, svc6, _ := net.ParseCIDR("fd00:21::/112")
 	fk := &c12K8s{pod: pod, svc: &terwayTypes.IPNetSet{IPv4: svc4, IPv6: svc6}}
 
-	backend, ipam := c12Backend(in)
-	mgr := eni.NewManager(0, 0, 0, 0, []eni.NetworkInterface{backend}, daemon.EniSelectionPolicyMostIPs, nil)
-	svc := terwaydaemon.VerifC12NewService(mode, fk, mgr, ipam, true, true)
+	var svc rpc.TerwayBackendServer
+	if vt.Str(in["kind"]) == "localpool" {
+		// the real pool behind the real service; earlier pods and pool shrinking first
+		pool := c12NewPool(in)
+		defer pool.close()
+		defer func() { out["cloud"] = pool.cloudCalls() }()
+		fk.earlier = []*daemon.PodInfo{c12EarlierPod(1), c12EarlierPod(2)}
+		svc = terwaydaemon.VerifC12NewService(mode, fk, pool.mgr, terwayTypes.IPAMTypeDefault, pool.v4, pool.v6)
+		if e := pool.play(svc); e != "" {
+			out["err"] = e
+			return out
+		}
+		var cancel context.CancelFunc
+		ctx, cancel = context.WithTimeout(ctx, c12Wait)
+		defer cancel()
+		defer func() {
+			if ctx.Err() == context.DeadlineExceeded {
+				c12MachineryError("hist %s: time-out in the judged ADD; cloud calls %v", pool.hist, pool.cloudCalls())
+			}
+		}()
+	} else {
+		backend, ipam := c12Backend(in)
+		mgr := eni.NewManager(0, 0, 0, 0, []eni.NetworkInterface{backend}, daemon.EniSelectionPolicyMostIPs, nil)
+		svc = terwaydaemon.VerifC12NewService(mode, fk, mgr, ipam, true, true)
+	}
 
 	reply, err := svc.AllocIP(ctx, &rpc.AllocIPRequest{
 		Netns: c12NetNS, K8SPodName: c12Pod, K8SPodNamespace: c12NS, K8SPodInfraContainerId: c12CID, IfName: "eth0",
@@ -553,6 +918,96 @@ func c12Add(in vt.M) vt.M {
 
 func c12Addr(s string) netip.Addr { return netip.MustParseAddr(s) }
 
+const c12ResultMark = "C12-POOL-RESULT "
+
+// c12PoolCaseInChild runs one "localpool" case in a child process (this test binary, entry TestVerifNetConfPoolCase).
+// The pool serves a request on goroutines of its own; when one of them crashes, the daemon crashes in the middle of an
+// ADD. In a process of its own that is observed like a panic of the ADD itself (clause "panic") instead of ending the
+// whole harness run. Anything else that goes wrong with the child (time-out, no result) is a machinery error.
+func c12PoolCaseInChild(in vt.M) (vt.M, string) {
+	raw, err := json.Marshal(in)
+	if err != nil {
+		panic(err)
+	}
+	exe, err := os.Executable()
+	if err != nil {
+		panic(err)
+	}
+	args := []string{"-test.run", "^TestVerifNetConfPoolCase$", "-test.count=1", "-test.timeout", "900s"}
+	if d := os.Getenv("VERIF_COVER"); d != "" {
+		args = append(args, fmt.Sprintf("-test.coverprofile=%s/C12-pool-%d-%d.out", d, os.Getpid(), time.Now().UnixNano()))
+	}
+	cmd := exec.Command(exe, args...)
+	cmd.Env = append(os.Environ(), "VERIF_C12_CASE="+string(raw))
+	var stdout, stderr strings.Builder
+	cmd.Stdout, cmd.Stderr = &stdout, &stderr
+	runErr := cmd.Run()
+	for _, line := range strings.Split(stdout.String(), "\n") {
+		if !strings.HasPrefix(line, c12ResultMark) {
+			continue
+		}
+		rs, err := vt.ReadNDJSONString(strings.TrimPrefix(line, c12ResultMark))
+		if err != nil || len(rs) != 1 {
+			break
+		}
+		for _, e := range vt.List(rs[0]["machinery"]) {
+			c12MachineryError("%s", vt.Str(e))
+		}
+		return vt.Map(rs[0]["out"]), vt.Str(rs[0]["panic"])
+	}
+	// no result: the process died
+	lines := strings.Split(stderr.String()+"\n"+stdout.String(), "\n")
+	for k, line := range lines {
+		if !strings.HasPrefix(line, "panic: ") && !strings.HasPrefix(line, "fatal error: ") {
+			continue
+		}
+		if strings.HasPrefix(line, "panic: test timed out") {
+			break
+		}
+		p := "daemon process died: " + line
+		for _, fr := range lines[k+1:] {
+			if strings.Contains(fr, "/terway/pkg/") || strings.Contains(fr, "/terway/daemon.") {
+				if j := strings.LastIndex(fr, "("); j > 0 {
+					fr = fr[:j]
+				}
+				p += " in " + fr[strings.LastIndex(fr, "/")+1:]
+				break
+			}
+		}
+		if len(p) > 200 {
+			p = p[:200]
+		}
+		return vt.M{}, p
+	}
+	tail := stderr.String()
+	if len(tail) > 1500 {
+		tail = tail[len(tail)-1500:]
+	}
+	c12MachineryError("child process of a localpool case gave no result (%v): %s", runErr, tail)
+	return vt.M{}, ""
+}
+
+// TestVerifNetConfPoolCase is the child side of c12PoolCaseInChild: one case from the environment, result on stdout.
+func TestVerifNetConfPoolCase(t *testing.T) {
+	raw := os.Getenv("VERIF_C12_CASE")
+	if raw == "" {
+		t.Skip("child entry of TestVerifNetConf")
+	}
+	cs, err := vt.ReadNDJSONString(raw)
+	if err != nil || len(cs) != 1 {
+		t.Fatalf("case: %v", err)
+	}
+	out := vt.M{}
+	p := vt.Catch(func() { out = c12Add(cs[0]) })
+	c12Machinery.Lock()
+	b, err := json.Marshal(vt.M{"out": out, "panic": p, "machinery": append([]string{}, c12Machinery.errs...)})
+	c12Machinery.Unlock()
+	if err != nil {
+		t.Fatal(err)
+	}
+	fmt.Printf("\n%s%s\n", c12ResultMark, b)
+}
+
 // TestVerifNetConf runs the real daemon and plugin code on every TLC-enumerated case of NetConf.tla.
 func TestVerifNetConf(t *testing.T) {
 	cases, err := vt.ReadNDJSON(vt.Env("VERIF_CASES", ""))
@@ -564,8 +1019,35 @@ func TestVerifNetConf(t *testing.T) {
 		t.Fatal(err)
 	}
 	defer w.Close()
+	// every "localpool" case runs its own pool (the pool's cloud worker batches for 300 ms per round): they run
+	// concurrently, next to the other cases, each in a child process (see c12PoolCaseInChild)
+	var bg sync.WaitGroup
+	sem := make(chan struct{}, vt.EnvInt("VERIF_C12_PAR", 24))
+	for _, c := range cases {
+		if in := vt.Map(c["in"]); vt.Str(in["fn"]) == "add" && vt.Str(in["kind"]) == "localpool" {
+			bg.Add(1)
+			go func(c vt.M, in vt.M) {
+				defer bg.Done()
+				sem <- struct{}{}
+				defer func() { <-sem }()
+				out, p := c12PoolCaseInChild(in)
+				w.Write(vt.M{"id": c["id"], "out": out, "panic": p})
+			}(c, in)
+		}
+	}
+	defer func() {
+		bg.Wait()
+		c12Machinery.Lock()
+		defer c12Machinery.Unlock()
+		if len(c12Machinery.errs) > 0 {
+			t.Fatalf("machinery: %d time-outs, first: %s", len(c12Machinery.errs), c12Machinery.errs[0])
+		}
+	}()
 	for _, c := range cases {
 		in := vt.Map(c["in"])
+		if vt.Str(in["fn"]) == "add" && vt.Str(in["kind"]) == "localpool" {
+			continue
+		}
 		out := vt.M{}
 		handled := true
 		p := vt.Catch(func() {
